@@ -26,10 +26,11 @@ const (
 	opUnsubscribe
 	opPublish
 	opMap
-	opUnsubscribeForeign // a pointer that was never subscribed
-	opSubscribeNil       // Subscribe(Subscription{}) : no OnNext
-	opMute               // set OnNext = nil through the pointer returned by Subscribe
-	opUnmute             // give a subscription without OnNext (subscribed empty, or muted) its callback through the returned pointer
+	opUnsubscribeForeign   // a pointer that was never subscribed
+	opSubscribeNil         // Subscribe(Subscription{}) : no OnNext
+	opMute                 // set OnNext = nil through the pointer returned by Subscribe
+	opUnmute               // give a subscription without OnNext (subscribed empty, or muted) its callback through the returned pointer
+	opUnsubscribeElsewhere // Unsubscribe(handle) on a publisher the handle is NOT registered on (e.g. on a derived one): a no-op
 )
 
 const (
@@ -38,6 +39,7 @@ const (
 	actUnsubOther
 	actSubscribeNew
 	actPublishNested
+	actPanic // the subscriber panics (after having received the value)
 )
 
 type scriptItem struct {
@@ -62,7 +64,7 @@ func (h history) String() string {
 		if i > 0 {
 			sb.WriteByte(' ')
 		}
-		sb.WriteString([]string{"Sub", "Unsub", "Pub", "Map", "UnsubForeign", "SubNil", "Mute", "Unmute"}[s.Op])
+		sb.WriteString([]string{"Sub", "Unsub", "Pub", "Map", "UnsubForeign", "SubNil", "Mute", "Unmute", "UnsubElsewhere"}[s.Op])
 		fmt.Fprintf(&sb, "(%d)", s.Arg)
 	}
 	sb.WriteString(" scripts=")
@@ -72,7 +74,7 @@ func (h history) String() string {
 		}
 		fmt.Fprintf(&sb, "s%d:", i)
 		for _, it := range sc {
-			fmt.Fprintf(&sb, "[@%d %s %d]", it.At, []string{"-", "unsubSelf", "unsubOther", "subNew", "pubNested"}[it.Act], it.Arg)
+			fmt.Fprintf(&sb, "[@%d %s %d]", it.At, []string{"-", "unsubSelf", "unsubOther", "subNew", "pubNested", "panic"}[it.Act], it.Arg)
 		}
 		sb.WriteByte(' ')
 	}
@@ -109,7 +111,8 @@ type expectRec struct {
 }
 
 type pubRec struct {
-	expects []*expectRec
+	expects  []*expectRec
+	panicked bool // a subscriber's panic came out of this Publish call
 }
 
 type delivery struct {
@@ -199,11 +202,25 @@ func (r *histRunner) publish(pn *pubNode) {
 	val := fmt.Sprintf("v%d", r.nextVal)
 	rec := &pubRec{}
 	r.expectTree(pn, val, &rec.expects)
+	depth := len(r.active)
 	r.active = append(r.active, rec)
-	pn.p.Publish(val)
-	r.active = r.active[:len(r.active)-1]
+	func() {
+		defer func() {
+			if p := recover(); p != nil {
+				if p != any(errSubscriberPanic) {
+					panic(p)
+				}
+				// a subscriber's own panic came out of Publish: the caller knows this Publish was cut short
+				rec.panicked = true
+			}
+		}()
+		pn.p.Publish(val)
+	}()
+	r.active = r.active[:depth]
 	r.finished = append(r.finished, rec)
 }
+
+var errSubscriberPanic = fmt.Errorf("c10: subscriber panics")
 
 func (r *histRunner) onNext(st *subState, v string) {
 	r.log = append(r.log, delivery{v, st})
@@ -227,6 +244,8 @@ func (r *histRunner) onNext(st *subState, v string) {
 			if len(r.active) < 4 {
 				r.publish(r.pubs[it.Arg%len(r.pubs)])
 			}
+		case actPanic:
+			panic(errSubscriberPanic)
 		}
 	}
 }
@@ -277,6 +296,10 @@ func (r *histRunner) check() {
 		}
 	}
 	for _, rec := range r.finished {
+		if rec.panicked {
+			// Publish did not return normally: which of the later subscriptions were still served is open
+			continue
+		}
 		for _, e := range rec.expects {
 			subs := byVal[e.val]
 			pos := map[*subState]int{}
@@ -398,6 +421,14 @@ func (r *histRunner) runSteps() {
 				st.ptr.OnNext = func(v string) { r.onNext(st, v) }
 				st.muted = false
 			}
+		case opUnsubscribeElsewhere:
+			if len(r.subs) > 0 && len(r.pubs) > 1 {
+				st := r.subs[s.Arg%len(r.subs)]
+				pn := r.pubs[(s.Arg/3)%len(r.pubs)]
+				if pn != st.owner {
+					pn.p.Unsubscribe(st.ptr)
+				}
+			}
 		case opUnsubscribeForeign:
 			pn := r.pubs[s.Arg%len(r.pubs)]
 			pn.p.Unsubscribe(&fpgo.Subscription[string]{OnNext: func(string) {}})
@@ -419,7 +450,7 @@ func (r *histRunner) runSteps() {
 func genHistory(t *rapid.T) history {
 	var h history
 	n := rapid.IntRange(1, 30).Draw(t, "steps")
-	ops := []int{opSubscribe, opSubscribe, opSubscribe, opSubscribe, opPublish, opPublish, opPublish, opPublish, opUnsubscribe, opMap, opUnsubscribeForeign, opSubscribeNil, opSubscribeNil, opMute, opUnmute, opUnmute}
+	ops := []int{opSubscribe, opSubscribe, opSubscribe, opSubscribe, opPublish, opPublish, opPublish, opPublish, opUnsubscribe, opMap, opUnsubscribeForeign, opSubscribeNil, opSubscribeNil, opMute, opUnmute, opUnmute, opUnsubscribeElsewhere, opUnsubscribeElsewhere, opMap}
 	for i := 0; i < n; i++ {
 		h.Steps = append(h.Steps, step{Op: rapid.SampledFrom(ops).Draw(t, "op"), Arg: rapid.IntRange(0, 23).Draw(t, "arg")})
 	}
@@ -430,7 +461,7 @@ func genHistory(t *rapid.T) history {
 		for j := 0; j < k; j++ {
 			sc = append(sc, scriptItem{
 				At:  rapid.IntRange(1, 3).Draw(t, "at"),
-				Act: rapid.SampledFrom([]int{actUnsubSelf, actUnsubSelf, actUnsubOther, actSubscribeNew, actPublishNested, actNothing}).Draw(t, "act"),
+				Act: rapid.SampledFrom([]int{actUnsubSelf, actUnsubSelf, actUnsubOther, actSubscribeNew, actPublishNested, actNothing, actPanic}).Draw(t, "act"),
 				Arg: rapid.IntRange(0, 23).Draw(t, "sarg"),
 			})
 		}
